@@ -180,6 +180,51 @@ pub fn replay_kept(case: &Value, _run: &Run) -> Acc {
     acc
 }
 
+/// computed first arguments of in / nin: the Boolean of a parenthesised or negated logical expression, and the
+/// results of length / count / value - each depends on the child under test
+fn computed_first_part() -> Acc {
+    use crate::model::ast::Op;
+    use crate::model::eval::compare;
+    let xs = xs();
+    let lists: Vec<Value> = vec![json!([true]), json!([false]), json!([false, true]), json!([]), json!(["true", 1, null]), json!([0, 1, 2]), json!([[1], "a", {"a": 1}])];
+    let one = json!(1);
+    let forms: Vec<(&str, Box<dyn Fn(&Option<Value>) -> Option<Value> + Sync>)> = vec![
+        ("(@.x==1)", Box::new(move |x| Some(json!(compare(x.as_ref(), Op::Eq, Some(&one)))))),
+        ("(@.x!=1)", Box::new(|x| Some(json!(!compare(x.as_ref(), Op::Eq, Some(&json!(1))))))),
+        ("!@.x", Box::new(|x| Some(json!(x.is_none())))),
+        ("(@.x)", Box::new(|x| Some(json!(x.is_some())))),
+        ("(@.x&&@.x!=null)", Box::new(|x| Some(json!(x.is_some() && x != &Some(json!(null)))))),
+        ("length(@.x)", Box::new(|x| match x {
+            Some(Value::String(s)) => Some(json!(s.chars().count())),
+            Some(Value::Array(a)) => Some(json!(a.len())),
+            Some(Value::Object(m)) => Some(json!(m.len())),
+            _ => None,
+        })),
+        ("count(@.x.*)", Box::new(|x| Some(match x {
+            Some(Value::Array(a)) => json!(a.len()),
+            Some(Value::Object(m)) => json!(m.len()),
+            _ => json!(0),
+        }))),
+        ("value(@.x)", Box::new(|x| x.clone())),
+    ];
+    let mut acc = Acc::new();
+    for l in &lists {
+        let doc = cell_doc(&Some(l.clone()), &xs, false);
+        for (text, val) in &forms {
+            for f in ["in", "nin"] {
+                let firsts: Vec<Option<Value>> = xs.iter().map(|x| val(x)).collect();
+                let expect: Vec<bool> = firsts.iter().map(|a| oracle(f, a, &Some(l.clone()))).collect();
+                let explain = |i: usize| format!("{}({} = {}, {}) must be {}", f, text, firsts[i].clone().map(|v| v.to_string()).unwrap_or("<nothing>".into()), l, expect[i]);
+                judge(&mut acc, &format!("$.elems[?{}({},$.l)]", f, text), &doc, &expect, "computed first argument", &explain);
+                let neg: Vec<bool> = expect.iter().map(|e| !e).collect();
+                judge(&mut acc, &format!("$.elems[?!{}({}, $.l)]", f, text), &doc, &neg, "computed first argument", &explain);
+                judge(&mut acc, &format!("$.elems[?{}({},$.l)&&@]", f, text), &doc, &expect, "computed first argument", &explain);
+            }
+        }
+    }
+    acc
+}
+
 /// both arguments relative to the child under test (`f(@.x, @.y)`, `f(@['x'], @.y)`, negated), over the full product
 fn relative_pairs_part(thorough: bool) -> Acc {
     let ls = lists(thorough);
@@ -364,7 +409,7 @@ pub fn run(tier: &str) -> i32 {
         }
         acc
     };
-    let acc = acc.merge(long_acc).merge(aliased_part(th)).merge(literal_spellings_part()).merge(relative_pairs_part(th));
+    let acc = acc.merge(long_acc).merge(aliased_part(th)).merge(literal_spellings_part()).merge(relative_pairs_part(th)).merge(computed_first_part());
     run.finish(
         acc,
         "one case = one (function, first argument, second argument, argument form); all first arguments are packed into one document per second argument; aliased arguments: both arguments from the document, as one node (`f(@.x,@.x)`, `f(@,@)`) and through an absolute path to a member of child k for every k; oracle = set membership as the property states it (false for a missing or non-array argument); non-trivial = the test is true",
